@@ -146,4 +146,16 @@ __CPROVER_assigns()
 /* [C13:processed-idle]     */ __CPROVER_ensures((fsm == CAT_FSM_TYPE_UNSOLICITED && RET == NULL) == (fsm == CAT_FSM_TYPE_UNSOLICITED && UST(&g_old) == CAT_UNSOLICITED_STATE_IDLE))
 ;
 
+/* base case of the induction: cat_init establishes Inv on any descriptor of the domain, whatever the object held before */
+void cat_init(struct cat_object *self, const struct cat_descriptor *desc, const struct cat_io_interface *io, const struct cat_mutex_interface *mutex)
+__CPROVER_requires(self == &h_obj && desc == &h_desc && io == &h_io && (mutex == NULL || mutex == &h_mutex))
+__CPROVER_assigns(*self)
+/* [INV:init-wf]            */ __CPROVER_ensures(inv_wf(self) && self->mutex == mutex)
+/* [INV,C13:init-ring]      */ __CPROVER_ensures(inv_ring(self) && RING_CNT(self) == 0)
+/* [INV:init-ev]            */ __CPROVER_ensures(inv_ev(self) && UST(self) == CAT_UNSOLICITED_STATE_IDLE)
+/* [INV,C11:init-excl]      */ __CPROVER_ensures(inv_excl(self))
+/* [INV,C14:init-hold]      */ __CPROVER_ensures(inv_hold(self) && self->hold_state_flag == 0)
+/* [INV,C20:init-live]      */ __CPROVER_ensures(inv_live(self) && ST(self) == CAT_STATE_IDLE)
+;
+
 #endif
